@@ -135,6 +135,9 @@ func (s *Sched) key() uint64 {
 	for _, x := range th {
 		k = Mix(k, x)
 	}
+	if s.cur != nil && !s.cur.done {
+		k = Mix(k, s.cur.h, 5) // which thread is running matters for what a "preemption" is
+	}
 	s.kbuf = th
 	return k
 }
